@@ -86,6 +86,9 @@ package server
 //@   ensures spec_tlvPresent(hello) && spec_tlvListsSelf(n, hello) ==> n.state == packet.P2PAdjStateUp
 //@   ensures spec_tlvPresent(hello) && !spec_tlvListsSelf(n, hello) ==> n.state != packet.P2PAdjStateUp
 //@   ensures !spec_tlvPresent(hello) ==> n.state == st0
+//@   counts updateTimeout
+//@   old c0 int = verif_calls(n)
+//@   ensures verif_calls(n) - c0 >= 1
 //@   call setState args s uint8 vars p2pAdjState *packet.P2PAdjacencyStateTLV requires p2pAdjState != nil && ((s == packet.P2PAdjStateUp && n.state != packet.P2PAdjStateUp && n.p2pAdjTLVContainsSelf(p2pAdjState)) || (s == packet.P2PAdjStateDown && n.state == packet.P2PAdjStateUp && !n.p2pAdjTLVContainsSelf(p2pAdjState)))
 
 // The periodic check takes an adjacency Down only from Up, and never gives up
